@@ -164,7 +164,8 @@ def seeded_variants(prop: str, project: Project) -> list:
         if not (os.path.exists(mp) and os.path.exists(pp)):
             continue
         meta = json.load(open(mp))
-        if meta.get("breaks_property") != prop or not meta.get("expected_caught", meta.get("caught")):
+        # replayed under every property whose check is recorded as catching it (not necessarily the one it was written against)
+        if prop not in (meta.get("caught_by") or {}):
             continue
 
         def read(rel):
